@@ -3,4 +3,5 @@ import Driver.Session
 import Driver.Credit
 import Driver.RecvCredit
 import Driver.Frame
+import Driver.Codec
 import Driver.Main
